@@ -4,6 +4,7 @@ package hipam
 // operations over one casstore) shared by C19 and C22.
 
 import (
+	"os"
 	"context"
 	"fmt"
 	"sort"
@@ -32,6 +33,7 @@ type vOp struct {
 	CIDR        string
 	Use         v3.IPPoolAllowedUse
 	Num         int
+	MaxAlloc    int // auto/assignip: MaxAllocToHandlePerIPVersion
 }
 
 func (o vOp) String() string {
@@ -85,7 +87,7 @@ func (w *ipamWorld) run(ctx context.Context, op vOp, seqOf map[string]uint64) (r
 		if n == 0 {
 			n = 1
 		}
-		args := ipam.AutoAssignArgs{Num4: n, Hostname: op.Host, Attrs: map[string]string{"node": op.Host}, IntendedUse: use}
+		args := ipam.AutoAssignArgs{Num4: n, Hostname: op.Host, Attrs: map[string]string{"node": op.Host}, IntendedUse: use, MaxAllocToHandlePerIPVersion: op.MaxAlloc}
 		if op.Handle != "" {
 			args.HandleID = ptr(op.Handle)
 		}
@@ -358,6 +360,16 @@ func runSchedCheck(c *vk.Ctx, scs, all []*schedScenario, oracle schedOracle) {
 		opts.Faults = allFaults
 	}
 	total := time.Duration(c.Pick(125, 22*60)) * time.Second
+	if only := os.Getenv("VERIF_ONLY"); only != "" { // development aid: restrict to matching scenarios
+		var keep []*schedScenario
+		for _, sc := range all {
+			if strings.Contains(sc.Name, only) {
+				keep = append(keep, sc)
+			}
+		}
+		scs = keep
+		c.NotExhaustive("VERIF_ONLY=" + only)
+	}
 	t0 := time.Now()
 	for i, sc := range scs {
 		resolveRefs(sc)
